@@ -192,6 +192,38 @@ def run(tier, seed):
                     obs_cases.append('OSimple %s %s %s %s %s' % (coq_bool(req), coq_str(ph), coq_z(n), coq_z(b), coq_bool((n, b, 0) in acc)))
                     obs_meta.append(dict(text=decl2 + text, impl=r[1], shape='ShAggAgg', value=n, threshold=b, accepted=(n, b, 0) in acc, required=req, phrase=ph))
 
+    # angle-valued operands are compared in whole turns ('(A)/360 < (T)/360', pinned by the suite): the complement half of the property
+    # is observed directly -- every value is accepted by exactly one of the requirement and the prohibition
+    decl3 = "An angle is identified by a value.\nA joint is identified by an id.\nA position is identified by a joint, and by an angle.\n"
+    choice3 = "1{position(1,A): A=(0;90;359;360;400;719;720;1000)}1."
+    for ph in phs + ['between']:
+        for t in ([(90, 400), (360, 719), (400, 90)] if ph == 'between' else [90, 360, 720]):
+            acc = {}
+            for req in (False, True):
+                tail = 'between %d and %d' % t if ph == 'between' else '%s %d' % (ph, t)
+                text = "It is %s that the angle A of the position P is %s." % (POL[req], tail)
+                r = impl.compile_text(decl3 + text)
+                compiles += 1
+                if r[0] != 'ok':
+                    rep.violation('compilation failed on a comparison of an angle', dict(text=decl3 + text, result=r))
+                    break
+                try:
+                    models = solve.answer_sets(choice3 + '\n' + r[1])
+                except solve.SolveError as e:
+                    rep.violation('clingo rejects the compiled constraint', dict(text=decl3 + text, impl=r[1], error=str(e)))
+                    break
+                acc[req] = (set(int(a[9:-1].split(',')[1]) for m in models for a in m if a.startswith('position(')), text, r[1])
+            if len(acc) < 2:
+                continue
+            rep.case(('ShAngle', ph, t))
+            rep.evaluations += 8
+            for v in (0, 90, 359, 360, 400, 719, 720, 1000):
+                if (v in acc[True][0]) == (v in acc[False][0]):
+                    rep.violation('the requirement and the prohibition of the same comparison both %s the value %d' % ('accept' if v in acc[True][0] else 'reject', v),
+                                  dict(required_text=decl3 + acc[True][1], required_program=acc[True][2], prohibited_text=decl3 + acc[False][1],
+                                       prohibited_program=acc[False][2], facts='position(1,%d).' % v, shape='ShAngle'))
+                    break
+
     rep.sample(corr_meta[0] if corr_meta else None)
     rep.sample(corr_meta[-1] if corr_meta else None)
     rep.sample(obs_meta[len(obs_meta) // 2] if obs_meta else None)
@@ -267,7 +299,7 @@ def run(tier, seed):
     rep.cov['clingo_observations'] = len(obs_cases)
     rep.cov['correspondence_cases'] = len(corr_cases)
     rep.cov['exhaustive'] = tier == 'thorough'
-    rep.cov['distribution'] = dict(phrases=len(phs) + 1, shapes=6, polarities=2, thresholds=len(thresholds), between_pairs=len(bt_pairs))
+    rep.cov['distribution'] = dict(phrases=len(phs) + 1, shapes=7, polarities=2, thresholds=len(thresholds), between_pairs=len(bt_pairs))
     rep.assumptions += ['clingo 5.8.2 decides satisfiability of facts+constraint (external semantics)',
                         'Lark parses the template sentences as intended (checked indirectly: model text == implementation text)',
                         'hand-written control-flow model of convert_operation (tied by the correspondence stream)']
